@@ -986,4 +986,69 @@ theorem build_today_tree (p : Prog) :
   simp only [BState.node, this]
   exact extract_of_rep s' p.layout 1 _ hi'.rep (by have := hi'.len; show _ ≤ s'.nodes.length + 1; omega)
 
+
+/-! ## the base rule's `Add` statements anywhere between the branches -/
+
+def Kids.append : Kids → Kids → Kids
+  | .nil, ys => ys
+  | .cons k p rest, ys => .cons k p (rest.append ys)
+
+theorem Kids.ops_append : ∀ xs ys : Kids, (xs.append ys).ops = xs.ops ++ ys.ops
+  | .nil, ys => rfl
+  | .cons k p rest, ys => by simp [Kids.append, Kids.ops, Kids.ops_append rest ys]
+
+theorem Kids.lay_append : ∀ (xs ys : Kids) (n : Nat),
+    (xs.append ys).lay n =
+      ((ys.lay (xs.lay n).2.2).1 ++ (xs.lay n).1, (xs.lay n).2.1 ++ (ys.lay (xs.lay n).2.2).2.1,
+        (ys.lay (xs.lay n).2.2).2.2)
+  | .nil, ys, n => by simp [Kids.append, Kids.lay]
+  | .cons .ref p rest, ys, n => by simp [Kids.append, Kids.lay, Kids.lay_append rest ys]
+  | .cons .alt p rest, ys, n => by simp [Kids.append, Kids.lay, Kids.lay_append rest ys]
+  | .cons .next p rest, ys, n => by simp [Kids.append, Kids.lay, Kids.lay_append rest ys]
+
+theorem Kids.lay_frames_climbable : ∀ (xs : Kids) (n : Nat), ∀ f ∈ (xs.lay n).1, f.climbable = true
+  | .nil, n => by simp [Kids.lay]
+  | .cons .ref p rest, n => by
+    intro f hf
+    simp only [Kids.lay, List.mem_append, List.mem_singleton] at hf
+    rcases hf with hf | rfl
+    · exact Kids.lay_frames_climbable rest _ f hf
+    · rfl
+  | .cons .alt p rest, n => by
+    intro f hf; simp only [Kids.lay] at hf; exact Kids.lay_frames_climbable rest _ f hf
+  | .cons .next p rest, n => by
+    intro f hf; simp only [Kids.lay] at hf; exact Kids.lay_frames_climbable rest _ f hf
+
+/-- **the builder with the base `Add` after the first branches**: running `xs`, then the base rule's `Add`
+statements, then `ys` in one `with rule:` block leaves behind the layout of the program `xs ++ ys` -/
+theorem build_split_tree (b : Nat) (xs ys : Kids) :
+    ((BState.init b).run Quirks.today (Op.enterQuery :: ((xs.ops ++ Op.add b :: ys.ops) ++ [Op.exit]))).bind
+        BState.tree = some (Prog.mk b (xs.append ys)).layout ∧ (Prog.mk b (xs.append ys)).layout.ids.Nodup := by
+  obtain ⟨s1, e1, i1, l1, st1, c1⟩ := Kids.run_lay xs _ [] [] 2 b [] [] (init_inv b) rfl (by simp) trivial
+  have hn0 : ({ BState.init b with stack := [2], cachedRoot := some 2 } : BState).nodes.length = 3 := rfl
+  simp only [hn0] at i1 l1
+  have i1' : Inv s1 (plug (((xs.lay 3).1 ++ itemFrames (xs.lay 3).2.1) ++ []) (.leaf 2 b [])) := by
+    simpa [plug, plug_append, plug_itemFrames] using i1
+  obtain ⟨s2, e2, i2, l2, st2, c2⟩ := add_step s1 _ 2 b [] [] b i1' st1
+  obtain ⟨s3, e3, i3, l3, st3, c3⟩ := Kids.run_lay ys s2 _ [] 2 b ([] ++ [b]) [] i2 (st2.trans st1)
+    (by intro f hf; simp only [List.mem_append] at hf
+        rcases hf with hf | hf
+        · exact Kids.lay_frames_climbable xs 3 f hf
+        · exact itemFrames_climbable _ f hf) trivial
+  simp only [l2, l1] at i3 l3
+  have hi' : Inv s3 (Prog.mk b (xs.append ys)).layout := by
+    simpa [plug, plug_append, plug_itemFrames, Prog.layout, Prog.layScope, Prog.layBranch, Kids.lay_append,
+      attach_append] using i3
+  refine ⟨?_, hi'.nodup⟩
+  have e4 := exit_run s3 2 [] (st3.trans (st2.trans st1))
+  simp only [BState.run, init_enter]
+  rw [run_app, run_app, e1]
+  simp only [Option.bind_some, BState.run, e2]
+  rw [e3]
+  simp only [Option.bind_some, BState.run, e4, BState.tree]
+  have := hi'.top
+  simp only [BState.node] at this
+  simp only [BState.node, this]
+  exact extract_of_rep s3 _ 1 _ hi'.rep (by have := hi'.len; show _ ≤ s3.nodes.length + 1; omega)
+
 end KrroodVerif.Rdr
